@@ -314,3 +314,19 @@ def literal_judge_one(o, sc):
 
 literal_judge = no_panic_judge(literal_judge_one)
 reads_judge = literal_judge
+
+
+def verdict_battery():
+    """values at the 64-bit boundaries, Z/X in both roles, holes in the supplied subset (C03)."""
+    S = [("in", "A", 1, 0), ("out", "P", 8), ("out", "Q", 8), ("out", "R", 64), ("out", "S", 64)]
+    prog = "A P Q R S\n0 255 Z (0-1) X\n1 (0-1) 3 %s Z\n" % lit(-(1 << 63))
+    b = []
+    b.append(Scenario(prog, S, layout=["P", "Q", "R", "S"], default_answer=[-1, "Z", "Z", "X"],
+                      answers={2: [255, 3, "X", "Z"]}, note="boundary values, Z and X"))
+    b.append(Scenario(prog, S, layout=["S", "Q"], default_answer=["Z", "Z"], answers={2: [7, 3]}, note="subset with a hole [S,Q]"))
+    b.append(Scenario(prog, S, layout=["R"], default_answer=[-1], answers={2: [-(1 << 63)]}, note="subset [R]"))
+    b.append(Scenario(prog, S, layout=["P", "Q", "S"], default_answer=[1000, 2, 3], answers={2: [-1, 3, "Z"]},
+                      note="subset [P,Q,S], out-of-width driver values"))
+    b.append(Scenario(prog, S, layout=["Q", "P", "S", "R"], default_answer=["X", -1, (1 << 63) - 1, -(1 << 63)],
+                      note="permutation"))
+    return b
